@@ -70,15 +70,16 @@ fn one(out: &mut Out, order: Order, nr: usize, nc: usize, pool_size: usize, seed
                     m.par_apply(|e| { probe.hit(*e); jitter(*e, seed); *e = f(*e); });
                     let v: Vec<u64> = m.iter_elements().copied().collect();
                     if v != seq_vals { return format!("MISMATCH apply"); }
+                    if (m.order(), m.nrows(), m.ncols()) != (order, nr, nc) { return format!("MISMATCH apply: shape or order changed"); }
                     format!("ok {} {}x{} {}", ord_ch(m.order()), m.nrows(), m.ncols(), digest_vals(&v))
                 }
                 "map" => match m.par_map(|e| { probe.hit(e); jitter(e, seed); f(e) }) {
                     Err(e) => format!("err {}", err_name(e)),
-                    Ok(r) => { let v: Vec<u64> = r.iter_elements().copied().collect(); if v != seq_vals { return "MISMATCH map".into(); } format!("ok {} {}x{} {}", ord_ch(r.order()), r.nrows(), r.ncols(), digest_vals(&v)) }
+                    Ok(r) => { let v: Vec<u64> = r.iter_elements().copied().collect(); if v != seq_vals { return "MISMATCH map".into(); } if (r.order(), r.nrows(), r.ncols()) != (order, nr, nc) { return format!("MISMATCH map: result is {}x{} {:?}, the source was {nr}x{nc} {:?}", r.nrows(), r.ncols(), r.order(), order); } format!("ok {} {}x{} {}", ord_ch(r.order()), r.nrows(), r.ncols(), digest_vals(&v)) }
                 },
                 "map_ref" => match m.par_map_ref(|e| { probe.hit(*e); jitter(*e, seed); f(*e) }) {
                     Err(e) => format!("err {}", err_name(e)),
-                    Ok(r) => { let v: Vec<u64> = r.iter_elements().copied().collect(); if v != seq_vals { return "MISMATCH map_ref".into(); } format!("ok {} {}x{} {}", ord_ch(r.order()), r.nrows(), r.ncols(), digest_vals(&v)) }
+                    Ok(r) => { let v: Vec<u64> = r.iter_elements().copied().collect(); if v != seq_vals { return "MISMATCH map_ref".into(); } if (r.order(), r.nrows(), r.ncols()) != (order, nr, nc) { return format!("MISMATCH map_ref: result is {}x{} {:?}, the source was {nr}x{nc} {:?}", r.nrows(), r.ncols(), r.order(), order); } format!("ok {} {}x{} {}", ord_ch(r.order()), r.nrows(), r.ncols(), digest_vals(&v)) }
                 },
                 "iter" => { let v: Vec<u64> = m.par_iter_elements().map(|e| { probe.hit(*e); jitter(*e, seed); f(*e) }).collect(); if v != seq_vals { return "MISMATCH iter".into(); } format!("ok {}", digest_vals(&v)) }
                 "iter_mut" => { let v: Vec<u64> = m.par_iter_elements_mut().map(|e| { probe.hit(*e); jitter(*e, seed); *e = f(*e); *e }).collect(); if v != seq_vals { return "MISMATCH iter_mut".into(); } format!("ok {}", digest_vals(&v)) }
@@ -139,7 +140,7 @@ fn capacity(out: &mut Out) {
 }
 
 pub fn run_c16(out: &mut Out, rng: &mut Rng, tier: Tier) -> String {
-    let shapes: Vec<(usize, usize)> = vec![(0, 0), (0, 3), (1, 1), (2, 3), (1, 7), (5, 5), (7, 3), (16, 16), (40, 50), (97, 101), (1, 4099), (300, 334)];
+    let shapes: Vec<(usize, usize)> = vec![(0, 0), (0, 3), (4, 0), (1, 1), (2, 3), (1, 7), (5, 5), (7, 3), (16, 16), (40, 50), (97, 101), (1, 4099), (300, 334)];
     let pools: Vec<usize> = if tier == Tier::Quick { vec![1, 2, 3, 4, 7, 16, 32] } else { (1..=32).collect() };
     let mut cases = 0;
     for &(nr, nc) in &shapes {
